@@ -91,7 +91,9 @@ func (vm *Vm) AddTraceback(exc *py.ExceptionInfo) {
 		Next:   exc.Traceback,
 		Frame:  vm.frame,
 		Lasti:  vm.frame.Lasti,
-		Lineno: vm.frame.Code.Addr2Line(vm.frame.Lasti),
+		// frame.Lasti has already been advanced past the
+		// instruction which raised, so its last byte is at Lasti-1
+		Lineno: vm.frame.Code.Addr2Line(vm.frame.Lasti - 1),
 	}
 }
 
